@@ -5,7 +5,7 @@
 From Coq Require Import NArith List String Bool Ascii.
 From Falco Require Import Base.TablesBase Model.ScopeMask Model.LintTables Model.LintOps Model.TablesDomain.
 From Falco Require Import Gen.LintConsts Gen.LintVars Gen.LintDyn Gen.LintFuncs Gen.RefVars Gen.RefFuncs Gen.InterpFuncs.
-From Falco Require Import Gen.ObsVars Gen.ObsFuncs Gen.ObsStmts Gen.ObsOps Gen.KnownGaps.
+From Falco Require Import Gen.ObsVars Gen.ObsFuncs Gen.ObsStmts Gen.ObsOps Gen.ObsWide Gen.KnownGaps.
 Import ListNotations.
 Local Open Scope N_scope.
 Local Open Scope string_scope.
@@ -35,13 +35,13 @@ Qed.
 
 Lemma lint_vars_in_ref :
   forallb (fun kv => (fun n a => option_rel var_entry_agrees (Some a) (assoc n ref_vars)) (fst kv) (snd kv)) lint_var_flat = true.
-Proof. vm_compute. reflexivity. Qed.
+Proof. vm_cast_no_check (eq_refl true). Qed.
 Lemma ref_vars_in_lint :
   forallb (fun kv => (fun n (_ : refvar) => is_some (assoc n lint_var_flat)) (fst kv) (snd kv)) ref_vars = true.
-Proof. vm_compute. reflexivity. Qed.
+Proof. vm_cast_no_check (eq_refl true). Qed.
 (* no name is listed twice on either side (so `assoc` sees every entry) *)
 Lemma var_names_nodup : nodup_str (map fst lint_var_flat) && nodup_str (map fst ref_vars) = true.
-Proof. vm_compute. reflexivity. Qed.
+Proof. vm_cast_no_check (eq_refl true). Qed.
 
 (* every name (any string): the linter's accessor and the reference entry exist together and agree on
    get type, set type, unset flag, scope mask and deprecation *)
@@ -58,12 +58,12 @@ Qed.
 
 Lemma lint_funcs_in_ref :
   forallb (fun kv => (fun n a => option_rel func_entry_agrees (Some a) (assoc n ref_funcs)) (fst kv) (snd kv)) lint_func_flat = true.
-Proof. vm_compute. reflexivity. Qed.
+Proof. vm_cast_no_check (eq_refl true). Qed.
 Lemma ref_funcs_in_lint :
   forallb (fun kv => (fun n (_ : reffunc) => is_some (assoc n lint_func_flat)) (fst kv) (snd kv)) ref_funcs = true.
-Proof. vm_compute. reflexivity. Qed.
+Proof. vm_cast_no_check (eq_refl true). Qed.
 Lemma func_names_nodup : nodup_str (map fst lint_func_flat) && nodup_str (map fst ref_funcs) = true.
-Proof. vm_compute. reflexivity. Qed.
+Proof. vm_cast_no_check (eq_refl true). Qed.
 
 (* every name: argument-type signatures, return type, scope mask, presence of the table lookup hook *)
 Theorem lint_funcs_eq_ref : forall name,
@@ -86,7 +86,7 @@ Theorem lint_dyn_eq_ref : forall name a, In (name, a) dyn_entries ->
 Proof.
   assert (H : forallb (fun kv => option_rel var_entry_agrees (Some (snd kv)) (assoc (fst kv) ref_vars)
                                  || gap_covers "dyn-ref" (fst kv) "" 0) dyn_entries = true)
-    by (vm_compute; reflexivity).
+    by (vm_cast_no_check (eq_refl true)).
   intros name a Hin. rewrite forallb_forall in H. specialize (H _ Hin). cbn [fst snd] in H.
   apply orb_true_iff in H. exact H.
 Qed.
@@ -103,7 +103,7 @@ Proof.
   assert (H : forallb (fun kv => match assoc (fst kv) interp_funcs with
                                  | Some g => interp_func_agrees (snd kv) g
                                  | None => false end || gap_covers "func-table" (fst kv) "" 0)
-                      lint_func_flat = true) by (vm_compute; reflexivity).
+                      lint_func_flat = true) by (vm_cast_no_check (eq_refl true)).
   intros name f Hin. rewrite forallb_forall in H. specialize (H _ Hin). cbn [fst snd] in H.
   apply orb_true_iff in H. destruct H as [H|H]; [left|right; exact H].
   destruct (assoc name interp_funcs) as [g|]; [|discriminate]. exists g. split; [reflexivity|exact H].
@@ -140,7 +140,7 @@ Theorem lint_vars_model_eq_observed : forall t n op lint interp ctx p,
   lint_var_op the_ctx n op (lint_mode (mask_at p)) = N.testbit ctx p /\
   lint_var_op the_ctx n op (lint_mode (mask_at p)) = N.testbit lint p.
 Proof.
-  assert (H : forallb (fun r => forallb (var_model_check r) positions45) obs_vars = true) by (vm_compute; reflexivity).
+  assert (H : forallb (fun r => forallb (var_model_check r) positions45) obs_vars = true) by (vm_cast_no_check (eq_refl true)).
   intros t n op lint interp ctx p Hr Hp.
   pose proof (forallb2_lift _ _ _ _ _ H _ _ Hr Hp) as C. unfold var_model_check in C.
   apply andb_true_iff in C. destruct C as [C1 C2].
@@ -162,7 +162,7 @@ Theorem lint_var_cells_eq_ref : forall t n op lint interp ctx p,
   (exists rv, assoc t ref_vars = Some rv /\ N.testbit lint p = ref_var_allows rv op (mask_at p))
   \/ gap_covers "var-ref" n op p = true.
 Proof.
-  assert (H : forallb var_ref_row_check obs_vars = true) by (vm_compute; reflexivity).
+  assert (H : forallb var_ref_row_check obs_vars = true) by (vm_cast_no_check (eq_refl true)).
   intros t n op lint interp ctx p Hr Hp.
   rewrite forallb_forall in H. specialize (H _ Hr). unfold var_ref_row_check in H.
   destruct (assoc t ref_vars) as [rv|]; [|discriminate].
@@ -182,7 +182,7 @@ Theorem lint_sub_interp_vars : forall t n op lint interp ctx p,
   N.testbit lint p = true ->
   N.testbit interp p = true \/ gap_covers "var-interp" n op p = true.
 Proof.
-  assert (H : forallb (fun r => forallb (var_interp_check r) positions45) obs_vars = true) by (vm_compute; reflexivity).
+  assert (H : forallb (fun r => forallb (var_interp_check r) positions45) obs_vars = true) by (vm_cast_no_check (eq_refl true)).
   intros t n op lint interp ctx p Hr Hp Hl.
   pose proof (forallb2_lift _ _ _ _ _ H _ _ Hr Hp) as C. unfold var_interp_check in C.
   exact (limp_or _ _ _ C Hl).
@@ -222,7 +222,7 @@ Theorem lint_types_eq_interp : forall n tys s t,
   \/ (type_name t = "REQBACKEND" /\ nth (N.to_nat s) tys "-" = "BACKEND")
   \/ gap_covers "var-type" n (type_name t) s = true.
 Proof.
-  assert (H : forallb (fun r => forallb (var_type_check r) positions9) obs_var_types = true) by (vm_compute; reflexivity).
+  assert (H : forallb (fun r => forallb (var_type_check r) positions9) obs_var_types = true) by (vm_cast_no_check (eq_refl true)).
   intros n tys s t Hr Hs Hg.
   pose proof (forallb2_lift _ _ _ _ _ H _ _ Hr Hs) as C. unfold var_type_check in C. rewrite Hg in C.
   apply lor_true in C. destruct C as [C|C]; [|right; right; right; exact C].
@@ -246,7 +246,7 @@ Theorem lint_funcs_model_eq_observed : forall n i lint interp p,
   In (n, i, lint, interp) obs_funcs -> In p positions45 ->
   is_some (lint_get_function n (lint_mode (mask_at p))) = N.testbit lint p.
 Proof.
-  assert (H : forallb (fun r => forallb (func_model_check r) positions45) obs_funcs = true) by (vm_compute; reflexivity).
+  assert (H : forallb (fun r => forallb (func_model_check r) positions45) obs_funcs = true) by (vm_cast_no_check (eq_refl true)).
   intros n i lint interp p Hr Hp.
   pose proof (forallb2_lift _ _ _ _ _ H _ _ Hr Hp) as C. apply eqb_prop. exact C.
 Qed.
@@ -265,7 +265,7 @@ Theorem lint_func_cells_eq_ref : forall n i lint interp p,
   (exists rf, assoc n ref_funcs = Some rf /\ N.testbit lint p = ref_func_allows rf (mask_at p))
   \/ gap_covers "func-ref" n "" p = true.
 Proof.
-  assert (H : forallb func_ref_row_check obs_funcs = true) by (vm_compute; reflexivity).
+  assert (H : forallb func_ref_row_check obs_funcs = true) by (vm_cast_no_check (eq_refl true)).
   intros n i lint interp p Hr Hp.
   rewrite forallb_forall in H. specialize (H _ Hr). unfold func_ref_row_check in H.
   destruct (assoc n ref_funcs) as [rf|]; [|discriminate].
@@ -286,7 +286,7 @@ Theorem lint_sub_interp_calls : forall n i lint interp p,
   N.testbit lint p = true ->
   N.testbit interp p = true \/ gap_covers "func-interp" n (sig_name i) p = true.
 Proof.
-  assert (H : forallb (fun r => forallb (func_interp_check r) positions45) obs_funcs = true) by (vm_compute; reflexivity).
+  assert (H : forallb (fun r => forallb (func_interp_check r) positions45) obs_funcs = true) by (vm_cast_no_check (eq_refl true)).
   intros n i lint interp p Hr Hp Hl.
   pose proof (forallb2_lift _ _ _ _ _ H _ _ Hr Hp) as C. unfold func_interp_check in C.
   exact (limp_or _ _ _ C Hl).
@@ -314,7 +314,7 @@ Definition stmt_check (r : string * N * N) (p : N) : bool :=
   end.
 
 Lemma stmt_check_ok : forallb (fun r => forallb (stmt_check r) positions45) obs_stmts = true.
-Proof. vm_compute. reflexivity. Qed.
+Proof. vm_cast_no_check (eq_refl true). Qed.
 
 Theorem lint_stmts_model_eq_observed : forall k lint interp p,
   In (k, lint, interp) obs_stmts -> In p positions45 ->
@@ -360,7 +360,7 @@ Theorem lint_ops_model_eq_observed : forall op lty lint interp p rty form,
   In (op, lty, lint, interp) obs_ops -> In (p, rty, form) op_cells_existing ->
   lint_op_model op lty rty form = N.testbit lint p.
 Proof.
-  assert (H : forallb (fun r => forallb (op_model_check r) op_cells_existing) obs_ops = true) by (vm_compute; reflexivity).
+  assert (H : forallb (fun r => forallb (op_model_check r) op_cells_existing) obs_ops = true) by (vm_cast_no_check (eq_refl true)).
   intros op lty lint interp p rty form Hr Hc.
   pose proof (forallb2_lift _ _ _ _ _ H _ _ Hr Hc) as C. apply eqb_prop. exact C.
 Qed.
@@ -377,7 +377,7 @@ Theorem lint_ops_eq_ref : forall op lty lint interp p rty form,
   In (op, lty, lint, interp) obs_ops -> In (p, rty, form) op_cells_existing -> In op assign_ops ->
   N.testbit lint p = ref_assign op lty rty form \/ gap_covers "op-ref" op lty p = true.
 Proof.
-  assert (H : forallb (fun r => forallb (op_ref_check r) op_cells_existing) obs_ops = true) by (vm_compute; reflexivity).
+  assert (H : forallb (fun r => forallb (op_ref_check r) op_cells_existing) obs_ops = true) by (vm_cast_no_check (eq_refl true)).
   intros op lty lint interp p rty form Hr Hc Hop.
   pose proof (forallb2_lift _ _ _ _ _ H _ _ Hr Hc) as C. unfold op_ref_check in C.
   assert (Hm : mem_str op assign_ops = true).
@@ -396,7 +396,7 @@ Theorem lint_sub_interp_ops : forall op lty lint interp p rty form,
   N.testbit lint p = true ->
   N.testbit interp p = true \/ gap_covers "op-interp" op lty p = true.
 Proof.
-  assert (H : forallb (fun r => forallb (op_interp_check r) op_cells_existing) obs_ops = true) by (vm_compute; reflexivity).
+  assert (H : forallb (fun r => forallb (op_interp_check r) op_cells_existing) obs_ops = true) by (vm_cast_no_check (eq_refl true)).
   intros op lty lint interp p rty form Hr Hc Hl.
   pose proof (forallb2_lift _ _ _ _ _ H _ _ Hr Hc) as C. unfold op_interp_check in C.
   exact (limp_or _ _ _ C Hl).
@@ -417,6 +417,44 @@ Proof.
     destruct Hb as [Hl Hi]. apply negb_true_iff in Hi.
     split; [exact Hin|]. split; [vm_compute; tauto|]. split; assumption.
   - vm_compute in E. discriminate.
+Qed.
+
+(* ================================================================ annotations of any width (3 scopes ... 9 scopes) *)
+Theorem obs_wide_domain :
+  map (fun r => match r with (n, op, _) => (n, op) end) obs_vars_wide
+    = map (fun r => match r with (_, n, op) => (n, op) end) (var_rows obs_http_names) /\
+  map fst obs_funcs_wide = map fst lint_func_flat /\
+  map fst obs_stmts_wide = stmt_kinds /\
+  forallb (fun m => mem_N m obs_wide_masks) three_scope_masks = true.
+Proof. vm_compute. repeat split; reflexivity. Qed.
+
+Definition wide_var_check (r : string * string * N) (m : N) : bool :=
+  match r with (n, op, bits) => Bool.eqb (lint_var_op the_ctx n op (lint_mode m)) (N.testbit bits m) end.
+Definition wide_func_check (r : string * N) (m : N) : bool :=
+  match r with (n, bits) => Bool.eqb (is_some (lint_get_function n (lint_mode m))) (N.testbit bits m) end.
+Definition wide_stmt_check (r : string * N) (m : N) : bool :=
+  match r with (k, bits) =>
+    Bool.eqb (lint_stmt k (lint_mode m)) (N.testbit bits m)
+    && Bool.eqb (N.testbit bits m) (forallb (ref_stmt k) (scopes_of m)) end.
+
+(* the models (whose scope tests are all_scopes_test, for which multi_scope_exact holds for any mask) give the
+   real linter's verdict under every observed annotation mask of three or more scopes *)
+Theorem lint_wide_model_eq_observed :
+  (forall n op bits m, In (n, op, bits) obs_vars_wide -> In m obs_wide_masks ->
+     lint_var_op the_ctx n op (lint_mode m) = N.testbit bits m) /\
+  (forall n bits m, In (n, bits) obs_funcs_wide -> In m obs_wide_masks ->
+     is_some (lint_get_function n (lint_mode m)) = N.testbit bits m) /\
+  (forall k bits m, In (k, bits) obs_stmts_wide -> In m obs_wide_masks ->
+     lint_stmt k (lint_mode m) = N.testbit bits m /\ N.testbit bits m = forallb (ref_stmt k) (scopes_of m)).
+Proof.
+  assert (H1 : forallb (fun r => forallb (wide_var_check r) obs_wide_masks) obs_vars_wide = true) by (vm_cast_no_check (eq_refl true)).
+  assert (H2 : forallb (fun r => forallb (wide_func_check r) obs_wide_masks) obs_funcs_wide = true) by (vm_cast_no_check (eq_refl true)).
+  assert (H3 : forallb (fun r => forallb (wide_stmt_check r) obs_wide_masks) obs_stmts_wide = true) by (vm_cast_no_check (eq_refl true)).
+  split; [|split].
+  - intros n op bits m Hr Hm. pose proof (forallb2_lift _ _ _ _ _ H1 _ _ Hr Hm) as C. apply eqb_prop. exact C.
+  - intros n bits m Hr Hm. pose proof (forallb2_lift _ _ _ _ _ H2 _ _ Hr Hm) as C. apply eqb_prop. exact C.
+  - intros k bits m Hr Hm. pose proof (forallb2_lift _ _ _ _ _ H3 _ _ Hr Hm) as C. unfold wide_stmt_check in C.
+    apply andb_true_iff in C. destruct C as [C1 C2]. split; apply eqb_prop; assumption.
 Qed.
 
 (* ================================================================ the hypotheses are not vacuous *)
